@@ -376,17 +376,18 @@ size_t findCopy(
     CMRdbgMsg(8, "%s %d has the same hash value. Comparing...\n", isRow ? "Row" : "Column", collisionIndex);
     bool equal = true;
     bool negated = true;
+    bool sameSupport = support; /* Only the support of the vector matters. */
     if (isRow)
     {
             ListMat8Nonzero* nz1 = listData[index].head.right;
             ListMat8Nonzero* nz2 = listData[collisionIndex].head.right;
-      while (equal || negated || support)
+      while (equal || negated || sameSupport)
       {
         if (nz1->column != nz2->column)
         {
           equal = false;
           negated = false;
-          support = false;
+          sameSupport = false;
           break;
         }
         if (nz1->column == SIZE_MAX)
@@ -403,13 +404,13 @@ size_t findCopy(
     {
             ListMat8Nonzero* nz1 = listData[index].head.below;
             ListMat8Nonzero* nz2 = listData[collisionIndex].head.below;
-      while (equal || negated || support)
+      while (equal || negated || sameSupport)
       {
         if (nz1->row != nz2->row)
         {
           equal = false;
           negated = false;
-          support = false;
+          sameSupport = false;
           break;
         }
         if (nz1->row == SIZE_MAX)
@@ -423,7 +424,7 @@ size_t findCopy(
       }
     }
 
-    if (equal || negated || support)
+    if (equal || negated || sameSupport)
       return collisionIndex;
   }
 
